@@ -57,6 +57,11 @@ func init() {
 			rounds = 5
 		}
 		c.Add(&Job{Pkg: communityPkg, Func: "VerifC16FermatSound", MustCover: []string{"factorisation reported", "no factorisation reported"}, Tune: func(cf *Config) { cf.Bounds["param:c16.rounds"] = rounds }})
+		// completeness: n = A^2 - d^2 (every product of two distinct factors of equal parity), explicit case
+		// split on (rounds, index of the round in which a reaches A); nonlinear integer queries: cvc5 decides
+		// them in seconds where z3 answers unknown (probed: DESIGN.md C16)
+		c.Add(&Job{Pkg: communityPkg, Func: "VerifC16FermatComplete", MustCover: []string{"close factors", "factors too far apart"}, NoReplay: true,
+			Tune: func(cf *Config) { cf.Bounds["param:c16.rounds"] = rounds; cf.Solver = "cvc5"; cf.LazyFeas = true }})
 		c.Add(&Job{Pkg: communityPkg, Func: "VerifC16FermatLint", MustCover: []string{"factorisation reported", "no factorisation reported"}, Tune: func(cf *Config) { cf.Bounds["param:c16.rounds"] = rounds }})
 	}
 }
